@@ -76,6 +76,26 @@ claim("C07", "exploration", SIM + "; hostile device (wrong ids, lengths, index j
       "Hostile batches: the ledger of the platform layer and slice-length checks decide (no unshare/dealloc without live entry or twice, no slice beyond its buffer, no token handed out twice, calls end in Ok/Err/clean panic); scribbled batches: the ordinary scenarios keep their full functional oracles while the device overwrites descriptor table and available ring. Memory errors inside unsafe blocks that do not surface through the ledger are left to the ASan engine in the thorough tier when it is available.",
       "Hangs of blocking calls under a device that never answers correctly are not judged; allocation-size config fields capped; sampling.", "6/C07")
 
+# Additions of the sixth round (kept separate so that the base texts above stay as reviewed).
+def more(id, text, note=None):
+    CLAIMED[id]["text"] += " " + text
+    if note:
+        CLAIMED[id]["note"] += " " + note
+
+HEAP = "A further batch injects heap-allocation failure for exactly the indirect descriptor table (global allocator returns null): the failed submission must have no side effects, and a fallback to a direct chain needs as many free descriptors as buffers."
+more("C01", HEAP)
+more("C02", HEAP + " The blocking helper is also run with other requests in flight (it may be overtaken and must leave its own published entry untouched).")
+more("C03", HEAP)
+more("C04", HEAP + " The blocking helper is also run with other requests in flight: nothing may be unshared before its completion is consumed.")
+more("C06", "A second batch runs the same cell checks over the real MMIO (legacy, modern, SomeTransport) and PCI transports with DMA memory placed just below 4 GiB multiples, so that what reaches the register-level device is compared with what the queue allocated.",
+     "Real transports only for the 'queue free and large enough' answer.")
+more("C07", "The bare-queue caller also models the library's fixed token-to-buffer callers (OwningQueue, input): with one-descriptor chains it presents the token the used ring names even when it is not outstanding, which must be refused without touching the free list.")
+more("C08", "A monitor judges every access to a configuration field that exists or is valid only under a device feature (net status/mq/mtu, blk optional fields, console size/ports/emerg_wr, 9P mount tag) against the negotiated set; a borrowed batch runs every driver against a device that fails its requests, with subsets of the device-specific features, judged only for mechanisms used without negotiation.")
+more("C12", "Capability lists of up to 48 entries (every dword slot of the device-specific area).")
+more("C16", "Blocking receive_wait (with the frame arriving while the driver waits), interrupt enable/disable, packet_mut and TxBuffer::from are part of the operation mix.")
+more("C17", "wait_for_event is used in place of poll whenever the next packet (already delivered or still to be delivered while the driver waits) is one the protocol says is reported.")
+more("C18", "wait_for_event is used in place of poll whenever the next packet is one the protocol says is reported.")
+
 TODO_REASON = "check not built yet in this round (planned, see DESIGN.md section 11); no claim is made"
 ALL = ["C%02d" % i for i in range(1, 21)]
 
